@@ -10,7 +10,8 @@ import feedgen
 from props.C11 import plain
 
 LEAN_MODULES = ["FeedVerif.Props.C07", "FeedVerif.Model.StreamDriver"]
-CORR_OBLIGATIONS = ["M-stream ~ PrefixFileWrapper.read on operation sequences (sized reads / read()) over files with adversarial short-read schedules",
+CORR_OBLIGATIONS = ["M-prefix ~ convert_file_prefix_to_utf8: final file offset and the answer kept, for scripted convert_to_utf8 behaviours (which attempts are bozo, with which exception class / encoding family), files at an offset, prefix lengths 1-6",
+                    "M-stream ~ PrefixFileWrapper.read on operation sequences (sized reads / read()) over files with adversarial short-read schedules",
                     "M-stream ~ _open_resource on the delivery forms (payload the parsers see, who owns / closes the file) and ~ the empty-content probe (offset restored)",
                     "feedparser's own consumers never issue read() in the middle of the prefix (traced on real parses: the hypothesis of readAll_fresh / readAll_past)"]
 TRUSTED = ["Lean model FeedVerif/Model/Stream.lean of PrefixFileWrapper / ResetFileWrapper / the probe / _open_resource; io.BytesIO / io.StringIO / real files as the 'File' of the model",
@@ -344,6 +345,43 @@ def enc_bytes(b):
     return ",".join(str(x) for x in b) if b else "_"
 
 
+def prefix_cases(rng, n):
+    """M-prefix: the real convert_file_prefix_to_utf8 over a scripted convert_to_utf8 (which attempts are bozo, with which exception class and
+    encoding family) on small files at an offset; protocol lines for the model and the (final offset, chosen answer) the real loop ends with"""
+    import unittest.mock as mock
+    import feedparser.encodings as E
+    lines, exp = [], []
+    for _ in range(n):
+        total = rng.randint(0, 14); offset0 = rng.randint(0, min(3, total))
+        content = bytes(rng.choice([0x61, 0xe2, 0x82, 0xac, 0xf0, 0x9f, 0x98, 0x80]) for _ in range(total))
+        prefix_len = rng.randint(1, 6); ascii_len = rng.randint(0, 4)
+        script = []
+        for _i in range(5):
+            b = rng.random() < 0.7
+            script.append((b, rng.choice([0, 10, 20]) if b else 0, rng.random() < 0.5))
+        f = io.BytesIO(content); f.seek(offset0)
+        state = {"pos": None}
+        real_rta = E.read_to_after_ascii_byte
+        def rta(file, max_len):
+            r = real_rta(file, max_len); state["pos"] = file.tell(); return r
+        def conv(headers, data, result):
+            i = offset0 + len(data) - state["pos"]
+            b, sc, u = script[min(max(i, 0), len(script) - 1)]
+            result["encoding"] = "utf-8" if u else "latin-1"
+            if b:
+                result["bozo"] = True
+                result["bozo_exception"] = E.NonXMLContentType("x") if sc == 20 else E.CharacterEncodingOverride("x") if sc == 10 else ValueError("x")
+            return data
+        with mock.patch.object(E, "read_to_after_ascii_byte", rta), mock.patch.object(E, "convert_to_utf8", conv):
+            res = {}
+            out = E.convert_file_prefix_to_utf8({}, f, res, prefix_len=prefix_len, read_to_ascii_len=ascii_len)
+        exc = res.get("bozo_exception")
+        score = 20 if isinstance(exc, E.NonXMLContentType) else 10 if isinstance(exc, E.CharacterEncodingOverride) else 0
+        lines.append("stream retry %d %d %d %s" % (offset0, state["pos"], total, ";".join("%d,%d,%d" % (b, sc, u) for b, sc, u in script)))
+        exp.append("%d %d %d %d %d" % (f.tell(), bool(res.get("bozo")), score, res["encoding"].startswith("utf-"), len(out)))
+    return lines, exp
+
+
 def correspondence(ctx):
     from feedparser.encodings import PrefixFileWrapper
     import feedparser.api as api
@@ -392,6 +430,10 @@ def correspondence(ctx):
         lines.append("stream probe %s %d" % (enc_bytes(content), pos))
         exp.append("%d %d" % (int(empty), s.tell()))
         dist["probe"] += 1
+    pl, pe = prefix_cases(rng, ctx.n(600, 8000))
+    lines += pl
+    exp += pe
+    dist["prefix-boundary-search"] = len(pl)
     got = vlib.run_driver(lines)
     dis = []
     for l, g, e in zip(lines, got, exp):
@@ -437,7 +479,7 @@ def replay(w):
 
 
 TECHNIQUE = "Lean 4 proof: the stream-stitching wrapper delivers exactly prefix-then-file under every read-chunking pattern and every short-read schedule (loop invariant, induction), re-reads and the probe restore the offset, all delivery forms hand over the same payload + operation-sequence correspondence with the real wrappers + pairwise delivery-form / optimistic differential search at the 8 KiB / 64 KiB boundaries"
-LEVEL_TEXT = ("Kernel-checked on M-stream: readN_preserves (a sized read returns a prefix of what was readable, for EVERY short-read schedule), readSeq_preserves (every sequence of sized reads "
+LEVEL_TEXT = ("Kernel-checked on M-prefix: prefix_split_lossless (for EVERY document, start / read position and EVERY behaviour of convert_to_utf8 the answer kept by convert_file_prefix_to_utf8 is convert_to_utf8 of exactly content[start:offset] where offset is where the file is left -- whichever of the four attempts wins, and when all fail and the file is sought back to the best candidate), boundarySearch_some, pickBest_mem. Kernel-checked on M-stream: readN_preserves (a sized read returns a prefix of what was readable, for EVERY short-read schedule), readSeq_preserves (every sequence of sized reads "
               "delivers the same bytes), loopN_stable / loopN_enough (the fuel bound of the modelled loop is not a restriction), readAll_fresh / readAll_past with mixed_read_counterexample "
               "(read() re-emits the prefix only in the middle of it -- which feedparser's consumers never do: traced), factory_reread, probe_restores_offset, delivery_form_payload, "
               "close_iff_not_caller_owned. Tie: operation sequences on the real PrefixFileWrapper / _open_resource vs the model.")
